@@ -31,7 +31,8 @@ def judge_groups(ctx, path, prop, label):
         ref = [x for x in g["runs"] if not x["faulted"]][:1]
         runs = [dict(modes=x["modes"], fault=x["fault"]) for x in ref + [bad]]
         rp = dict(kind="store", property=prop, case=dict(text=g["text"], bal=g["bal"], meta=g["meta"], rawvars=g["rawvars"], flagovd=g.get("flagovd", False), runs=runs))
-        if confirm_store(ctx, rp):
+        # (a violation that depends on map iteration order may need more than one attempt to show again)
+        if any(confirm_store(ctx, rp) for _ in range(4)):
             seen.add(v["what"])
             ctx.add_violation("%s: %s | store behaviour %s (fault at call %s) -> %s %s ; reference behaviour %s -> %s %s | script: %s" % (
                 prop, v["what"], bad["modes"], bad["fault"], bad["st"], bad["post"], ref[0]["modes"] if ref else None, ref[0]["st"] if ref else None,
